@@ -51,7 +51,7 @@ def _canon(cols):
     return sorted(min(c, c.translate(_COMP)) for c in cols)
 
 
-def replay_entries(run, tier, seed, module="MC_LoGraph", tag="c17-graph", nq=400, nt=6000, declarative=True):
+def replay_entries(run, tier, seed, module="MC_LoGraph", tag="c17-graph", nq=400, nt=6000, declarative=True, cfg=None, indel_events=None):
     """B for `ska lo` without a reference: the scenarios of a TLC universe run through `ska build` + the hooked `ska lo`.
 
     Two kinds of outcome are kept apart (DESIGN I.8):
@@ -63,7 +63,7 @@ def replay_entries(run, tier, seed, module="MC_LoGraph", tag="c17-graph", nq=400
       complement); in every run every column must be well formed; the command must not fail. These are violations."""
     import random, concurrent.futures, skacli
     from props.c11 import run_cmd
-    d = vlib.design_check(module, module + "_quick" if tier == "quick" else module, tag, workers=12,
+    d = vlib.design_check(module, cfg or (module + "_quick" if tier == "quick" else module), tag, workers=12,
                           timeout=3000, want_replay=True)
     run.add_design(d)
     behs = d["replay"]
@@ -71,6 +71,7 @@ def replay_entries(run, tier, seed, module="MC_LoGraph", tag="c17-graph", nq=400
     rng.shuffle(behs)
     behs = behs[:int(os.environ.get("VERIF_LOGRAPH_N", nq if tier == "quick" else nt))]
     letters = lambda ds: "".join("ACTG"[x] for x in ds)
+    made = {}
 
     def one(args):
         i, beh = args
@@ -127,6 +128,19 @@ def replay_entries(run, tier, seed, module="MC_LoGraph", tag="c17-graph", nq=400
                                      for r in beh["records"])
                     if r_real != r_model:
                         drift.append("indel records")
+                    if indel_events is not None and "anc" in beh:
+                        # the scenario as a planted-indel event for Trace_Lo (C18's own clauses, evaluated by TLC)
+                        anc_s = bytes(beh["anc"]).decode()
+                        p0, ln, car = beh["pos"], beh["len"], set(beh["car"])
+                        unit = anc_s[p0:p0 + ln]
+                        long_ = sorted(car) if beh["dup"] else sorted(set(range(1, nsamp + 1)) - car)
+                        made[i] = {"ev": "lo.indels", "id": 5000 + i,
+                                   "ctx": {"k": beh["k"], "names": ["g%d" % j for j in range(nsamp)],
+                                           "samples": [[{"seq": list(x), "off": 0, "rev": False}] for x in beh["samples"]],
+                                           "pre_strict": None, "threads": 1, "stratum": "tandem" if beh["dup"] else "generic",
+                                           "planted": [{"len": ln, "seq": [ord(c) for c in unit], "long": long_,
+                                                        "kind": "ins" if beh["dup"] else "del", "pos": p0}]},
+                                   "panic": "", "records": lodrv.parse_indel_vcf(open(out + "_indels.vcf").read())}
             # ---- the property's own clauses ---------------------------------------------------------------------
             if declarative:
                 if rc != 0 and not refused:
@@ -155,6 +169,8 @@ def replay_entries(run, tier, seed, module="MC_LoGraph", tag="c17-graph", nq=400
                          (module, ", ".join(v["drift"]), [bytes(x).decode() for x in beh["samples"]]))
         if not v["decl"] and not v["drift"]:
             run.nontriv(["lo-replay", module, beh["samples"]])
+    if indel_events is not None:
+        indel_events.extend(made[i] for i in sorted(made))
     run.drift += ndrift
     run.extra["%s_scenarios_replayed" % module] = len(behs)
     run.extra["%s_scenarios_with_model_drift" % module] = ndrift
